@@ -40,6 +40,14 @@ theorem reader_options_pass_through :
      "RebalanceTimeout", "RetentionTime", "SessionTimeout", "StartOffset", "Topics", "WatchPartitionChanges"].all
       (fun f => KV.Gen.Group.readerGroupOptions.any (fun p => p.1 == f)) = true := by decide
 
+/-- regenerated: heartbeat and OffsetCommit requests are built from the generation's own ids (`g.ID`, `g.MemberID`,
+`g.GroupID`), LeaveGroup from the group id — what `heartbeat_ids` / the commit monitors assume of the request builders -/
+theorem requests_carry_generation_ids :
+    KV.Gen.Group.heartbeatRequestFields = [("GenerationID", "ID"), ("GroupID", "GroupID"), ("MemberID", "MemberID")] ∧
+    [("GenerationID", "ID"), ("GroupID", "GroupID"), ("MemberID", "MemberID"), ("RetentionTime", "retentionMillis")].all
+      (fun p => KV.Gen.Group.commitRequestFields.contains p) = true ∧
+    KV.Gen.Group.leaveRequestFields.contains ("GroupID", "ID") = true := by decide
+
 /-! ### joined_iff -/
 
 /-- `joined` is closed exactly when the generation has ended, no accounted function is left and at least one was
